@@ -3,6 +3,7 @@ package world
 import (
 	"context"
 	"net"
+	"verif/internal/envwatch"
 
 	"google.golang.org/grpc"
 	"google.golang.org/grpc/credentials/insecure"
@@ -31,7 +32,7 @@ func (w *World) NewRPC() *RPC {
 		grpc.WithContextDialer(func(ctx context.Context, _ string) (net.Conn, error) { return lis.DialContext(ctx) }),
 		grpc.WithTransportCredentials(insecure.NewCredentials()))
 	if err != nil {
-		w.T.Fatalf("dial bufconn: %v", err)
+		panic(envwatch.HarnessErr{What: "dial bufconn", Err: err})
 	}
 	return &RPC{Client: pb.NewCoreRPCClient(conn), V: v, srv: srv, conn: conn}
 }
